@@ -202,11 +202,12 @@ def run_case(rec, env, det_ref, text, doc, limit, mode, cyclic, containers, bran
     c17.CH.trace = []
     if mode == "nondeterministic" and script_seed is not None:
         c17.CH.rand = _random.Random(script_seed)
+    kept = []
     try:
         for n in q.finditer(doc):
             count += 1
             if not cyclic and count <= 5000:
-                out.append((tuple(n.location), id(n.value)))
+                kept.append(n)
             if count > budget:
                 outcome = ("budget", None)
                 break
@@ -214,6 +215,16 @@ def run_case(rec, env, det_ref, text, doc, limit, mode, cyclic, containers, bran
                 rec.heartbeat()
         else:
             outcome = ("completed", None)
+        # locations and paths are read after the traversal, for every other case deepest node first (nothing may depend on
+        # the order in which a caller looks at the nodes)
+        order = list(range(len(kept)))
+        if (len(kept) + limit) % 2:
+            order.reverse()
+        out = [None] * len(kept)
+        for i_ in order:
+            out[i_] = (tuple(kept[i_].location), id(kept[i_].value))
+        if kept:
+            kept[order[0]].path()
     except Exception as e:  # noqa: BLE001
         outcome = ("raised", type(e).__name__)
     finally:
